@@ -61,3 +61,14 @@ Definition C15_canon_mat_cols : Prop :=
   forall (A : Type) (m m' : list (nat * list (nat * A))),
   Forall2 (fun r r' => fst r = fst r' /\ NoDup (map fst (snd r)) /\ Permutation (snd r) (snd r')) m m' ->
   canon_mat m = canon_mat m'.
+
+(* labelled selections: listing a label twice changes nothing; the result covers exactly the
+   distinct listed labels (their product for regions x sectors) and still adds up to the scalar *)
+Definition C12_labelled : Prop :=
+  (forall l, NoDup (dedup l) /\ (forall x, In x (dedup l) <-> In x l)) /\
+  (forall l, NoDup l -> dedup l = l) /\
+  (forall I aff w v, snd (scalar_labelled I aff w) = COk v ->
+     fst (scalar_labelled I aff w) = dedup aff /\ length v = length (dedup aff) /\ sumq v = I) /\
+  (forall I regs secs wr ws v, snd (regsec_labelled I regs secs wr ws) = COk v ->
+     fst (regsec_labelled I regs secs wr ws) = list_prod (dedup regs) (dedup secs) /\
+     length v = (length (dedup regs) * length (dedup secs))%nat /\ sumq v = I).
